@@ -231,3 +231,91 @@ def sql_unit(e, col_unit):
             raise UnitError("sum of different units")
         return a
     raise UnitError("sql expression %s" % k)
+
+
+class FlowUnits:
+    """Unit of a local name: from its suffix, else from the SQL column it is
+    bound to, else from its unique defining expression; `extra` supplies
+    units for names that come from elsewhere (e.g. unpacked call results)."""
+
+    def __init__(self, ctx, finfo, extra=None, call_unit=None):
+        from .flow import Flow
+        from .sqlbind import bindings, select_column_name
+
+        self.ctx = ctx
+        self.f = finfo
+        self.flow = Flow.of(finfo)
+        self.extra = dict(extra or {})
+        self.user_call_unit = call_unit
+        self.bound = {}
+        for b in bindings(ctx, finfo):
+            for i, nm in enumerate(b.names):
+                if not nm:
+                    continue
+                e, alias = b.site.stmt.columns[i]
+                u = None
+                name = select_column_name(b.site.stmt, i)
+                if name:
+                    u = unit_of_name(name)
+                if u is None:
+                    try:
+                        u = sql_unit(e, lambda c: unit_of_name(c[2]))
+                        if u[0] == "const":
+                            u = None
+                    except UnitError:
+                        u = None
+                if u is not None:
+                    self.bound[nm] = u
+        self._depth = 0
+
+    def name_unit(self, node):
+        u = unit_of_name(node.id)
+        if u is not None:
+            return u
+        if node.id in self.extra:
+            return self.extra[node.id]
+        if node.id in self.bound:
+            return self.bound[node.id]
+        if self._depth > 6:
+            return None
+        try:
+            v = self.flow.def_value(node)
+        except Exception:  # noqa
+            v = None
+        if v is None:
+            return None
+        self._depth += 1
+        try:
+            u = self.evaluator().unit(v)
+            return None if u[0] == "const" else u
+        except UnitError:
+            return None
+        finally:
+            self._depth -= 1
+
+    def call_unit(self, call, ev):
+        import ast as _ast
+        from .source import dotted_name
+
+        if self.user_call_unit is not None:
+            u = self.user_call_unit(call, ev)
+            if u is not None:
+                return u
+        fn = dotted_name(call.func) or ""
+        last = fn.split(".")[-1]
+        if last in ("array", "asarray", "mean", "float", "list", "tuple", "abs", "average") and call.args:
+            return ev.unit(call.args[0])
+        if isinstance(call.func, _ast.Attribute) and call.func.attr in ("mean", "tolist", "copy", "astype") and not call.args:
+            return ev.unit(call.func.value)
+        u = unit_of_name(last)
+        if u is not None:
+            return u
+        if isinstance(call.func, _ast.Name):
+            return self.name_unit(call.func)
+        return None
+
+    def evaluator(self):
+        return UnitEval(name_unit=self.name_unit, call_unit=self.call_unit)
+
+    def unit(self, expr):
+        return self.evaluator().unit(expr)
